@@ -6,7 +6,7 @@ import random
 from pyvc.run import run_t1, replay_t1, load_natives
 from vlib.result import Ctx, PropResult, StandIn, Violation
 
-MODULES = ["source_map"]
+MODULES = ["source_map", "compiler_utils"]  # compiler_utils: SourceMapBuilder.add_macro_opcode establishes rewrite_offsets' precondition
 SM = "explorerscript.source_map"
 
 
@@ -38,6 +38,12 @@ def run(ctx: Ctx) -> PropResult:
     res.standins.append(StandIn(contract="SourceMap.deserialize(SourceMap.serialize(m)): equal under __eq__, identical tables field by field, int keys, same text when serialised again", tier="T3", bound=f"{n} seeded random source maps (<= 6 op entries, <= 5 macro entries, <= 3 position marks)", evaluations=n, distinct_nontrivial=len(distinct), samples=samples))
     for cls, (msg, rep) in fails.items():
         res.violations.append(Violation(signature=f"C14:T3:roundtrip:{cls}", what=f"serialize/deserialize round trip: {msg}", input={"contract": SM + ":SourceMap.serialize", "input_repr": rep, "seed": ctx.seed}, contract="round trip", observed=msg))
+    # bounded stand-in for the PRODUCER side: source maps the compiler really builds (macros, nested macros, if/elseif chains and
+    # switches inside macros = several ops from one source position) satisfy rewrite_offsets' precondition (one object per macro
+    # entry), survive storage, and rewriting them follows the return-address rule
+    pv, pn, psamples = producer_maps(ctx)
+    res.standins.append(StandIn(contract="source maps built by compile(): one object per macro entry; round trip; rewrite_offsets' return-address rule", tier="T3", bound=f"{pn} compiled macro programs x 3 offset mappings (compaction, reversal of routines, dropping every third op)", evaluations=pn * 3, distinct_nontrivial=pn, samples=psamples))
+    res.violations += pv
     res.rule = "T1: every obligation generated from the real source of source_map.py against the sidecar contracts; T3: seeded random source maps / offset mappings (distinct = distinct JSON view, non-trivial = at least one entry)"
     res.trusted_base = [
         "pyvc (the VC generator in /verif/pyvc) and its encoding of Python semantics (see DESIGN.md §2.2)",
@@ -53,9 +59,95 @@ def run(ctx: Ctx) -> PropResult:
     return res
 
 
+PRODUCER_PROGRAMS = [
+    # an if/elseif chain without else inside a macro that is called early in a longer script (two surviving ops share one source position)
+    "macro chain($v) {\n    if ($v == 1) { a(); } elseif ($v == 2) { b(); } elseif ($v == 3) { c(); }\n    tail($v);\n}\ndef 0 {\n    ~chain($A);\n    x1(); x2(); x3(); x4(); x5(); x6(); x7(); x8(); x9(); x10(); x11(); x12();\n    ~chain($B);\n    y1(); y2(); y3();\n}\n",
+    "macro sw($v) { switch ($v) { case 1: a(); break; case 2: b(); break; default: c(); } }\nmacro outer($w) { pre($w); ~sw($w); ~sw(3); post(); }\ndef 0 { ~outer($A); z(); ~outer(2); }\ndef 1 { ~sw(1); q(); q(); q(); q(); ~sw(2); }\n",
+    "macro loop($n) { for ($i = 0; $i < $n; $i += 1;) { body($i); if (debug) { break_loop; } } }\ndef 0 { ~loop(3); mid(); ~loop(4); end; }\n",
+    "macro r() { a(); if (edit) { return; } b(); }\nmacro m2() { ~r(); c(); ~r(); }\nmacro m3() { ~m2(); d(); }\ndef 0 { ~m3(); e(); ~m3(); f(); }\n",
+    "macro w($t) { with (actor $t) { act(); } while ($t < 3) { step(); } p(Position<'m', 1, 2>); }\ndef 0 for actor 2 { ~w(1); ~w(2); }\ncoro C { ~w(3); hold; }\n",
+]
+
+
+def producer_maps(ctx: Ctx):
+    import copy
+
+    from explorerscript.source_map import SourceMap
+    from explorerscript.ssb_converting.ssb_compiler import ExplorerScriptSsbCompiler
+
+    from contracts.native_source_map import expected_ra, map_view, mon_roundtrip
+
+    viol: list = []
+    n = 0
+    samples: list = []
+    seen: set = set()
+
+    def add(sig: str, what: str, text: str, observed: str) -> None:
+        if sig in seen:
+            return
+        seen.add(sig)
+        viol.append(Violation(signature=sig, what=what, input={"contract": "compile() -> source map", "program": text, "seed": ctx.seed}, contract="source maps built by compile()", observed=observed, tier="T3"))
+
+    progs = list(PRODUCER_PROGRAMS)
+    try:
+        from gen import programs as P
+
+        for prog in P._form_programs():
+            if prog.macros:
+                progs.append(P.to_text(prog))
+    except Exception:  # the generator belongs to other checks; its absence must not break this one
+        pass
+    for text in progs:
+        c = ExplorerScriptSsbCompiler("$PERFORMANCE_PROGRESS_LIST", [])
+        try:
+            c.compile(text, "/nonexistent/c14.exps")
+        except Exception:
+            continue
+        sm: SourceMap = c.source_map
+        if not sm._mappings_macros:
+            continue
+        n += 1
+        if len(samples) < 2:
+            samples.append(text[:300])
+        objs = list(sm._mappings_macros.values())
+        if len({id(o) for o in objs}) != len(objs):
+            add("C14:T3:producer:macro-entries-share-one-object", "two macro entries of a compiled source map are the same object: rewrite_offsets would rewrite its return address once per offset", text, f"{len(objs)} entries, {len({id(o) for o in objs})} objects")
+            continue
+        msg = mon_roundtrip({"self": sm})
+        if msg is not None:
+            add("C14:T3:producer:roundtrip:" + msg.split(":")[0][:60], "round trip of a compiled source map: " + msg, text, msg)
+        offs = sorted(op.offset for r in c.routine_ops for op in r)
+        mappings = {
+            "compaction": {o: i * 2 + 5 for i, o in enumerate(offs)},
+            "routines-reversed": {op.offset: k for k, op in enumerate(op for r in reversed(c.routine_ops) for op in r)},
+            "every-third-op-dropped": {o: i for i, o in enumerate(o for j, o in enumerate(offs) if j % 3 != 2)},
+        }
+        for mname, nm in mappings.items():
+            m2 = copy.deepcopy(sm)
+            old = {k: v.return_addr for k, v in m2._mappings_macros.items()}
+            m2.rewrite_offsets(dict(nm))
+            for k, ra in old.items():
+                if k in nm:
+                    got = m2._mappings_macros[nm[k]].return_addr
+                    exp = expected_ra(ra, nm)
+                    if got != exp:
+                        add(f"C14:T3:producer:rewrite:{mname}", f"rewrite_offsets on a compiled source map ({mname}): return address {ra} of the entry at {k} became {got}, expected {exp}", text, f"{ra} -> {got}, expected {exp}")
+    return viol, n, samples
+
+
 def replay(record: dict, ctx: Ctx) -> bool:
     if record.get("tier") == "T1":
         return replay_t1(MODULES, record)
+    if isinstance(record.get("input"), dict) and "program" in record["input"]:
+        global PRODUCER_PROGRAMS
+        saved = PRODUCER_PROGRAMS
+        PRODUCER_PROGRAMS = [record["input"]["program"]]
+        try:
+            v, _, _ = producer_maps(ctx)
+        finally:
+            PRODUCER_PROGRAMS = saved
+        print("replay:", [x.signature for x in v])
+        return any(x.signature == record.get("signature") for x in v)
     # T3: re-run the generator with the recorded seed until the recorded input shows up, or the monitor on the class
     nat = load_natives(MODULES)
     key = record["input"]["contract"]
